@@ -2420,15 +2420,16 @@ CMR_ERROR CMRysumCompose(CMR* cmr, CMR_CHRMAT* first, CMR_CHRMAT* second, size_t
   CMR_CALL( CMRchrmatTranspose(cmr, second, &transpose_second) );
 
   CMR_CHRMAT* transpose_result = NULL;
-  CMR_CALL( CMRdeltasumCompose(cmr, transpose_first, transpose_second, firstSpecialColumns, firstSpecialRows,
-    secondSpecialColumns, secondSpecialRows, characteristic, &transpose_result) );
-  CMR_CALL( CMRchrmatTranspose(cmr, transpose_result, presult) );
+  CMR_ERROR error = CMRdeltasumCompose(cmr, transpose_first, transpose_second, firstSpecialColumns, firstSpecialRows,
+    secondSpecialColumns, secondSpecialRows, characteristic, &transpose_result);
+  if (error == CMR_OKAY)
+    error = CMRchrmatTranspose(cmr, transpose_result, presult);
 
   CMR_CALL( CMRchrmatFree(cmr, &transpose_result) );
   CMR_CALL( CMRchrmatFree(cmr, &transpose_first) );
   CMR_CALL( CMRchrmatFree(cmr, &transpose_second) );
 
-  return CMR_OKAY;
+  return error;
 }
 
 CMR_ERROR CMRysumDecomposeEpsilon(CMR* cmr, CMR_CHRMAT* matrix, CMR_CHRMAT* transpose, CMR_SEPA* sepa, char* pepsilon)
